@@ -24,6 +24,17 @@ def sh(cmd, cwd=None, timeout=3600):
     return p.returncode, (p.stdout + p.stderr)
 
 
+def apply_patch(patch, cwd):
+    """`git apply`; when a later repair only moved the surrounding lines (an added import, a re-indented neighbour)
+    the same hunks are applied with the context reduced to one line."""
+    rc, out = sh("git apply %s" % patch, cwd=cwd)
+    if rc != 0:
+        rc2, out2 = sh("git apply -C1 %s" % patch, cwd=cwd)
+        if rc2 == 0:
+            return 0, "applied with reduced context"
+    return rc, out
+
+
 def suite_result(cwd):
     rc, out = sh("/venv/bin/python -m pytest -q -p no:cacheprovider --timeout=900 --continue-on-collection-errors 2>/dev/null | tail -15", cwd=cwd)
     failed = sorted(set(re.findall(r"^FAILED (\S+)", out, re.M)))
@@ -61,7 +72,7 @@ def main():
         open(demo_local, "w").write(re.sub(r"/tmp/m\d*/%s/repo" % prop, wt, demo_src))
         rc0, out0 = sh("/venv/bin/python _demo_seeded.py", cwd=wt, timeout=900)
         ran.append("demo on unchanged tree -> exit %d" % rc0)
-        rc, out = sh("git apply %s" % patch, cwd=wt)
+        rc, out = apply_patch(patch, wt)
         if rc != 0:
             print("PATCH DOES NOT APPLY:", out)
             return 3
@@ -120,7 +131,7 @@ def main():
         assert rc == 0, out
         for f in ("compiled.c", "compiled.cpython-312-x86_64-linux-gnu.so"):
             shutil.copy2("/repo/orso/compute/" + f, wt2 + "/orso/compute/" + f)
-        rc, out = sh("git apply %s" % patch, cwd=wt2)
+        rc, out = apply_patch(patch, wt2)
         assert rc == 0, out
         cpatch = os.path.join(src, "c_patch.diff")
         if os.path.exists(cpatch):
